@@ -45,14 +45,16 @@ def gen_gspec(rng, levels, item_kind):
                 return ['list', [rng.choice(INT_VALS)]]
             return rng.choice(INT_AGGS)
         if item_kind == 'list':
-            return rng.choice([['Flatten'], ['Count'], ['First'], ['list', [['T', 'T', []]]], ['list', [['fn', 'len']]]])
+            return rng.choice([['Flatten'], ['Count'], ['First'], ['list', [['T', 'T', []]]], ['list', [['fn', 'len']]],
+                               ['list', [['Auto', ['Sum']]]], ['list', [['Auto', ['Count']]]]])
         return rng.choice([['Merge'], ['Count'], ['First'], ['list', [['T', 'T', [['[', 'k']]]]]])
     if item_kind == 'int':
         keys = [rng.choice(INT_KEYS)]
         if rng.random() < 0.15:
             keys.append(['fn', 'tostr'] if keys[0] != ['fn', 'tostr'] else ['T', 'T', [['%', 2]]])
     elif item_kind == 'list':
-        keys = [rng.choice([['fn', 'len'], ['fn', 'first_or0'], ['fn', 'nonempty']])]
+        keys = [rng.choice([['fn', 'len'], ['fn', 'first_or0'], ['fn', 'nonempty'], ['Auto', ['Count']],
+                            ['Auto', ['Sum']]])]
     else:
         keys = [rng.choice([['T', 'T', [['[', 'k']]], ['fn', 'len']])]
     return ['dict', [[{'t': 'spec', 'v': k}, gen_gspec(rng, levels - 1, item_kind)] for k in keys]]
@@ -114,6 +116,9 @@ def _fn(r):
             return lambda x: x % arg
         if op == '[':
             return lambda x: x[arg]
+    if r[0] == 'Auto':
+        # a reduction evaluated in spec mode on the item itself (per item, no aggregation)
+        return {'Sum': sum, 'Count': len}[r[1][0]]
     if r[0] == 'fn':
         return {
             'mod3': lambda x: x % 3, 'is_even': lambda x: x % 2 == 0, 'tostr': lambda x: f's{x}',
